@@ -3,16 +3,23 @@
 One run per (repo fingerprint, tool fingerprint, seed, tier) is cached under build/cache, so that
 checking C12 and C14 in sequence generates the histories and replays the model once.
 
-The three repairs proposed for the defects this check finds (FINDINGS.md) are independent commits, so
-the model has one switch per repair (Model/FastSync.v, ffrule) and the rule the tree under test
-implements is DETECTED: the correspondence is run with the unchanged rule first, then the fully repaired
-one, then the mixed ones; the first rule without a disagreement is reported (coverage.rule_detected).
-The theorems of Properties/C12.v, C14.v are about the two end points (C12_rule_switches_exact)."""
+The tree is REQUIRED to implement the repaired rule (`fixed`: /repo a556752 dedupe, a41e4c4 known
+signers, 52c591c check before restore, and the malformed-input guard of the C08 repair): the extracted
+model is run with that rule and every disagreement is a correspondence break (VIOLATION; with the
+oracle's concrete input when the oracle fires, else no-failing-input-found). The model keeps one switch
+per repair (Model/FastSync.v, ffrule; the theorems are about the end points, C12_rule_switches_exact);
+when there are disagreements the other 15 switch combinations are tried ONLY as a diagnostic that names
+which repair the tree has lost (coverage.rule_detected / lost_repairs).
+A disagreement whose implementation side is a panic is reported with the oracle's class
+`panic-on-malformed-response` and the mutation kind, so that it is tolerated exactly as long as the
+KNOWN_FINDINGS entry for those inputs is open (the C08 repair is pending at the time of writing)."""
 import glob, hashlib, json, os, re, subprocess, time
 from concurrent.futures import ThreadPoolExecutor
 import vlib
 
-RULES = ["current", "fixed"] + [format(i, "04b") for i in range(1, 15)]
+REQUIRED_RULE = "fixed"
+RULES = ["fixed", "current"] + [format(i, "04b") for i in range(1, 15)]
+SWITCHES = ["dedupe (a556752)", "known signers (a41e4c4)", "malformed-input guard (C08)", "check before restore (52c591c)"]
 
 
 def _tool_fingerprint():
@@ -36,12 +43,19 @@ def _shard(args):
 
 
 def _model(paths, rule):
-    """Run the extracted model with the given rule over all shards; returns (cases, diffs, notes)."""
+    """Run the extracted model with the given rule over all shards; returns (cases, diffs, notes).
+    The runner prints at most 200 DIFF lines per process; when a shard exceeds that, it is replayed a second
+    time without the cases on which the implementation panicked (their disagreements are reported by the first
+    pass, one per mutation kind is enough) so that no other disagreement can hide behind the cap."""
     cases, diffs, notes = 0, [], []
     for p in paths:
-        text = "FFMODE %s\n" % rule + open(p).read()
-        n, d, raw = vlib.run_model(text, timeout=1500)
+        body = open(p).read()
+        n, d, raw = vlib.run_model("FFMODE %s\n" % rule + body, timeout=1500)
         cases += n
+        if any(x.startswith("...") for x in d):
+            kept = [l for l in body.splitlines() if not ((l.startswith("FF ") or l.startswith("NF ")) and " => panic " in l)]
+            _, d2, _ = vlib.run_model("FFMODE %s\n" % rule + "\n".join(kept) + "\n", timeout=1500)
+            d = [x for x in d if not x.startswith("...") and " impl=panic " in x] + d2
         diffs += d
         notes += [l for l in raw.splitlines() if l.startswith("NOTE ")]
     return cases, diffs, notes
@@ -67,16 +81,41 @@ def run(ctx):
     crashed = ["ff shard %d seed %d rc=%d: %s" % (r["shard"], r["seed"], r["rc"], r["err"][-600:]) for r in res if r["rc"] != 0]
     paths = [r["path"] for r in res]
     harness_s = time.time() - t0
-    # rule detection
-    tried, best = [], None
-    for rule in RULES:
-        cases, diffs, notes = _model(paths, rule)
-        tried.append((rule, len(diffs)))
-        if best is None or len(diffs) < len(best[2]):
-            best = (rule, cases, diffs, notes)
-        if not diffs:
-            break
-    rule, cases, diffs, notes = best
+    out = analyse(paths, tier, crashed)
+    out.update(harness_s=round(harness_s, 1), shards=shards, args=[str(a) for a in args])
+    json.dump(out, open(summ, "w"))
+    return out
+
+
+def analyse(paths, tier, crashed):
+    """Model replay (required rule, diagnostic detection), oracle lines and statistics of a finished harness run."""
+    # the required rule; other rules only as a diagnostic when it disagrees
+    cases, raw_diffs, notes = _model(paths, REQUIRED_RULE)
+    tried, rule = [(REQUIRED_RULE, len(raw_diffs))], REQUIRED_RULE
+    if raw_diffs:
+        best = len(raw_diffs)
+        for r in RULES[1:]:
+            _, d, _ = _model(paths, r)
+            tried.append((r, len(d)))
+            if len(d) < best:
+                best, rule = len(d), r
+            if not d:
+                break
+    flags = {"current": "0000", "fixed": "1111"}.get(rule, rule)
+    lost = [SWITCHES[i] for i in range(4) if flags[i] == "0"]
+    diffs, seen_panic = [], set()
+    for d in raw_diffs:
+        m = re.match(r"DIFF (FF|NF) line=\d+ (?:FF \S+ \S+ (\S+) (\S+)|NF \S+ \S+ (\S+)) .* impl=(\S+)", d)
+        if m and m.group(5) == "panic":
+            victim, kind = (m.group(2), m.group(3)) if m.group(1) == "FF" else ("node", m.group(4))
+            if kind not in seen_panic:
+                seen_panic.add(kind)
+                diffs.append(dict(cls="panic-on-malformed-response",
+                                  key="kind=%s at=%s class=panic (model/implementation: %s)" % (kind, victim, d[-120:])))
+        else:
+            diffs.append(("tree implements rule %s, required %s; repairs missing: %s | " % (rule, REQUIRED_RULE, ", ".join(lost))
+                          if rule != REQUIRED_RULE else "") + d)
+    diffs.sort(key=lambda x: isinstance(x, dict))   # unexplained first
     vlines, zhist, ztotal, kinds, classes, victims, samples = [], [], {}, {}, {}, {}, []
     nontrivial, distinct, distinct_forged = 0, set(), set()
     for p in paths:
@@ -111,14 +150,13 @@ def run(ctx):
                     samples.append(l[:240])
     coq_n, coq_err = (0, None)
     if tier == "thorough":
-        coq_n, coq_err = coq_sample(paths, rule)
+        coq_n, coq_err = coq_sample(paths, rule)   # the rule the tree implements (diagnosed), so that a mismatch is a Coq/OCaml evaluator mismatch
         if coq_err:
             diffs = [coq_err] + diffs
-    out = dict(coq_sample=coq_n, rule=rule, rules_tried=tried, cases=cases, diffs=diffs[:20], ndiffs=len(diffs), notes=len(notes),
+    out = dict(coq_sample=coq_n, rule=rule, lost_repairs=lost, rules_tried=tried, cases=cases, diffs=diffs[:20], ndiffs=len(diffs), notes=len(notes),
                note_kinds=_note_hist(notes), vlines=vlines, crashed=crashed, histories=len(zhist), zhist=zhist[:200],
                ztotal=ztotal, kinds=kinds, classes=classes, victims=victims, nontrivial=nontrivial,
-               distinct=len(distinct), distinct_forged=len(distinct_forged), samples=samples, harness_s=round(harness_s, 1), shards=shards, args=[str(a) for a in args])
-    json.dump(out, open(summ, "w"))
+               distinct=len(distinct), distinct_forged=len(distinct_forged), samples=samples)
     return out
 
 
@@ -232,7 +270,8 @@ def coverage_from(res, what):
              "recording application proxy). %s evaluations = cases compared with the model (decision class, reject-noop digest, post-state); "
              "%d of them mutated; distinct_nontrivial = distinct (mutation kind, victim state, result class) among the mutated cases. %s"
              % (res["histories"], res["cases"], res["nontrivial"], what),
-        samples=res["samples"], rule_detected=res["rule"], rules_tried=res["rules_tried"],
+        samples=res["samples"], rule_required=REQUIRED_RULE, rule_detected=res["rule"], lost_repairs=res.get("lost_repairs", []),
+        rules_tried=res["rules_tried"],
         histogram=dict(mutation_groups=res["kinds"], result_classes=res["classes"], victims=res["victims"],
                        frame_peer_set_sizes=sizes, totals=res["ztotal"], repaired_rule_would_refuse=res["note_kinds"]),
         traces_validated_against_impl=res["cases"], histories=res["histories"],
